@@ -7,6 +7,7 @@ import random, os
 import framework as F
 import sim as S
 import hostile as H
+import gen
 
 PROP = "C01"
 LEVEL = "exploration"
@@ -137,6 +138,8 @@ def plan(tier, seed):
     # enumerated buffer-boundary block downloads (complete in both tiers)
     for lo in range(0, 18, 3):
         items.append(("boundary", "asan", lo, 3))
+    for i in range(6):
+        items.append(("hbcgap", "asan", i))
     # enumerated two-frame cycles repeated without reset: cumulative drift of a buffer cursor or counter (complete in both tiers)
     for c0 in range(0, 256, 8):
         items.append(("pairloop", "asan", c0, 8, 150 if tier == "quick" else 900))
@@ -196,6 +199,34 @@ def work(item, ctx):
             if h == 0 and idx < 2:
                 res.sample({"build": variant, "node": cfg.nodeid, "freq": cfg.freq, "tmrnum": cfg.tmrnum,
                             "objects": len(cfg.objs), "dropped": list(drop), "script_head": lines[:12]})
+    elif kind == "hbcgap":
+        # a heartbeat consumer table with a gap in its sub-indices (or fewer entries than 1016h:0 says): the initialisation of the table
+        # gives up at the gap - every request to the entries that do exist still has to be served without touching anything else
+        _, variant, idx = item
+        exe = ctx["exes"][variant]
+        rng = random.Random(F.seed_for(seed, "C01hbcgap", idx))
+        nid = rng.choice([1, 9, 127])
+        cfg = S.Config(nodeid=nid, freq=1000, tmrnum=8)
+        gen.add_mandatory(cfg, hb=0, ssdo=1, ssdo_rw=False)
+        n = rng.choice([2, 3, 4])
+        gen.add_hbcons(cfg, [(10 + i, rng.choice([0, 50, 200])) for i in range(n)])
+        gone = rng.randint(2, n) if idx % 2 == 0 else None
+        if gone:
+            cfg.objs = [o for o in cfg.objs if not (o.idx == 0x1016 and o.sub == gone)]
+        else:
+            for o in cfg.objs:
+                if o.idx == 0x1016 and o.sub == 0:
+                    o.args[-1] = n + 1            # the count names one entry more than the table has
+        cfg.finalize()
+        rid = 0x600 + nid
+        lines = []
+        for sub in range(1, n + 2):
+            for v in (0x000A0032, 0x000B0000, 0x000C0064, 0):
+                lines.append("rx %x 8 %s" % (rid, (bytes([0x23, 0x16, 0x10, sub]) + v.to_bytes(4, "little")).hex()))
+                lines.append("rx %x 8 %s" % (rid, bytes([0x40, 0x16, 0x10, sub, 0, 0, 0, 0]).hex()))
+            lines += ["rx %x 1 05" % (0x700 + 10 + sub - 1), "tick 120", "hbevents %d" % (10 + sub - 1)]
+        lines += ["rx 0 2 82%02x" % nid, "tick 60"] + lines[:12]
+        run_history(res, exe, cfg, lines, ("hbcgap", idx))
     elif kind == "boundary":
         # block downloads whose buffered data ends exactly at / around the transfer buffer size (127 segments = 889 bytes):
         # last segment flagged or not, 0/1/2/127 more in-order data segments behind it, end frame with n in {0, 6, 7}
